@@ -17,6 +17,7 @@ import (
 	"bufio"
 	"context"
 	"encoding/json"
+	"errors"
 	"flag"
 	"fmt"
 	"math"
@@ -35,6 +36,7 @@ import (
 	"github.com/pinealctx/neptune/syncx/pipe/async"
 	"github.com/pinealctx/neptune/syncx/pipe/line"
 	"github.com/pinealctx/neptune/syncx/pipe/mline"
+	"github.com/pinealctx/neptune/syncx/pipe/q"
 	"github.com/pinealctx/neptune/ulog"
 
 	"verif/harness/internal/qx"
@@ -51,6 +53,106 @@ type resVal struct{ id int }
 type resErr struct{ id int }
 
 func (e resErr) Error() string { return "callee error of call " + strconv.Itoa(e.id) }
+
+type resErrP struct{ id int } // used through a pointer (also a nil one)
+
+func (e *resErrP) Error() string {
+	if e == nil {
+		return "typed nil error"
+	}
+	return "callee error (pointer) of call " + strconv.Itoa(e.id)
+}
+
+// Kinds of what a callee hands back (`kd` of inv and of replies; see OwnRes in Lanes.tla): the API
+// takes and returns interface{}, so the dynamic kind is a plan dimension.  0..9 carry the call's
+// identity, 10..19 do not, 30.. are sentinel errors of the packages involved returned by the
+// callee as its own error.
+const (
+	kStruct, kPtr, kInt, kString, kSlice, kMap, kFunc = 0, 1, 2, 3, 4, 5, 6
+	kNil, kNilPtr                                     = 10, 11
+	eVal, ePtr, eWrap                                 = 0, 7, 8
+	eNilPtr                                           = 12
+	eClosed, eFull, eCanceled, eDeadline              = 30, 31, 32, 33
+	eQClosed, eSync, eWrapClosed                      = 34, 35, 36
+)
+
+var valueKinds = []int{kStruct, kStruct, kStruct, kPtr, kInt, kString, kSlice, kMap, kFunc, kNil, kNilPtr}
+var errorKinds = []int{eVal, eVal, eVal, ePtr, eWrap, eNilPtr, eClosed, eFull, eCanceled, eDeadline, eQClosed, eSync, eWrapClosed}
+
+// mkValue renders identity id in kind kd (also used for the parameter handed to the callee).
+func mkValue(kd, id int) interface{} {
+	switch kd {
+	case kPtr:
+		return &resVal{id}
+	case kInt:
+		return id
+	case kString:
+		return "call-" + strconv.Itoa(id)
+	case kSlice:
+		return []int{id, id}
+	case kMap:
+		return map[string]int{"id": id}
+	case kFunc:
+		return func() int { return id }
+	case kNil:
+		return nil
+	case kNilPtr:
+		return (*resVal)(nil)
+	}
+	return resVal{id}
+}
+
+// decodeValue reads kind and identity back; ok = false: not a value of this harness.
+func decodeValue(v interface{}) (kd, id int, ok bool) {
+	switch x := v.(type) {
+	case nil:
+		return kNil, 0, true
+	case resVal:
+		return kStruct, x.id, true
+	case *resVal:
+		if x == nil {
+			return kNilPtr, 0, true
+		}
+		return kPtr, x.id, true
+	case int:
+		return kInt, x, true
+	case string:
+		if n, err := strconv.Atoi(strings.TrimPrefix(x, "call-")); err == nil && strings.HasPrefix(x, "call-") {
+			return kString, n, true
+		}
+	case []int:
+		if len(x) == 2 && x[0] == x[1] {
+			return kSlice, x[0], true
+		}
+	case map[string]int:
+		if n, has := x["id"]; has && len(x) == 1 {
+			return kMap, n, true
+		}
+	case func() int:
+		if x != nil {
+			return kFunc, x(), true
+		}
+	}
+	return 0, 0, false
+}
+
+// scribble: the caller owns what it was given - after the reply has been rendered the aggregate
+// is overwritten; nothing an executor hands out later may change with it.
+func scribble(v interface{}) {
+	switch x := v.(type) {
+	case *resVal:
+		if x != nil {
+			x.id = -7
+		}
+	case []int:
+		for i := range x {
+			x[i] = -7
+		}
+	case map[string]int:
+		x["id"] = -7
+		x["junk"] = 1
+	}
+}
 
 type ctxErr struct{ id int }
 
@@ -160,6 +262,8 @@ type call struct {
 	hv      int // actual hash
 	fail    bool
 	both    bool // a failing callee returns a value together with its error
+	kd      int  // kind of what the callee hands back
+	pk      int  // kind of the parameter that carries the call's identity to the callee
 	pre     bool
 	ctx     *vctx
 	gate    chan string // "stop": the callee calls Stop itself and waits again; "end": it returns
@@ -199,6 +303,9 @@ type world struct {
 	lineFn     line.CallFn
 	mlineFn    mline.CallFn
 	callFn     func(ctx context.Context, arg int) (interface{}, error)
+	salt       int // varies the kinds drawn from one world to the next
+	burstN     int // calls of the long run in this world (ids maxCalls+1 ..)
+	burst      struct{ inflight, overlap, entered, last, disorder, wrongLane int32 }
 }
 
 type procT struct {
@@ -209,6 +316,46 @@ type procT struct {
 func (p procT) Do(ctx context.Context) (interface{}, error) { return p.wd.callee(ctx, 0, p.id) }
 
 const qDefault = -2 // queue size option not given at all
+
+var worldSeq int // set from the seed, counts worlds
+
+// typedFn: for the reflective RunnerQ.AsyncCall the function's parameter and result types are part
+// of the input; a succeeding call of kind struct / pointer / string / slice goes through a function
+// typed that way (its result then has that kind), everything else through func(ctx, int) interface{}.
+func (wd *world) typedFn(c *call) (fn interface{}, arg interface{}) {
+	id := c.id
+	if !c.fail {
+		switch c.kd {
+		case kStruct:
+			return func(ctx context.Context, a resVal) (resVal, error) {
+				r, err := wd.callee(ctx, 0, a.id)
+				x, _ := r.(resVal)
+				return x, err
+			}, resVal{id}
+		case kPtr:
+			return func(ctx context.Context, a *resVal) (*resVal, error) {
+				r, err := wd.callee(ctx, 0, a.id)
+				x, _ := r.(*resVal)
+				return x, err
+			}, &resVal{id}
+		case kString:
+			return func(ctx context.Context, a string) (string, error) {
+				_, n, _ := decodeValue(a)
+				r, err := wd.callee(ctx, 0, n)
+				x, _ := r.(string)
+				return x, err
+			}, mkValue(kString, id)
+		case kSlice:
+			return func(ctx context.Context, a []int) ([]int, error) {
+				_, n, _ := decodeValue(a)
+				r, err := wd.callee(ctx, 0, n)
+				x, _ := r.([]int)
+				return x, err
+			}, mkValue(kSlice, id)
+		}
+	}
+	return wd.callFn, id
+}
 
 // specQ is the queue size as the specification sees it: "not bounded" is 0, and a bound TLC cannot
 // hold (top of the integer range) is carried as 1000000 - far above anything 12 calls can fill.
@@ -272,13 +419,15 @@ func newWorld(w *tr.W, src, kind string, nl, qopt int, withIdx, nowg bool) *worl
 	// one function value per executor, used for every call like a caller would (the call's identity
 	// travels in the parameter)
 	wd.lineFn = func(ctx context.Context, req interface{}) (interface{}, error) {
-		id, _ := req.(int)
+		_, id, _ := decodeValue(req)
 		return wd.callee(ctx, 0, id)
 	}
 	wd.mlineFn = func(ctx context.Context, idx int, req interface{}) (interface{}, error) {
-		id, _ := req.(int)
+		_, id, _ := decodeValue(req)
 		return wd.callee(ctx, idx, id)
 	}
+	worldSeq++
+	wd.salt = worldSeq
 	wd.callFn = func(ctx context.Context, arg int) (interface{}, error) { return wd.callee(ctx, 0, arg) }
 	wd.base = wd.pkgGoroutines()
 	return wd
@@ -293,6 +442,21 @@ func (wd *world) finish() {
 
 // callee is what every executor is asked to run.
 func (wd *world) callee(ctx context.Context, lane int, id int) (interface{}, error) {
+	if id > maxCalls && id <= maxCalls+wd.burstN { // a call of a long run: counted, not logged one by one
+		b := &wd.burst
+		if atomic.AddInt32(&b.inflight, 1) > 1 {
+			atomic.AddInt32(&b.overlap, 1)
+		}
+		atomic.AddInt32(&b.entered, 1)
+		if int(atomic.SwapInt32(&b.last, int32(id))) >= id {
+			atomic.AddInt32(&b.disorder, 1)
+		}
+		if wd.kind == "mline" && lane != wd.ml.IndexOf(wd.burstHash(id)) {
+			atomic.AddInt32(&b.wrongLane, 1)
+		}
+		atomic.AddInt32(&b.inflight, -1)
+		return id, nil
+	}
 	if id < 1 || id > maxCalls {
 		// the executor handed the callee a parameter nobody submitted: an observation, not a harness error
 		wd.log.add(tr.E{"ev": "bad", "what": "callee entered with a parameter that is no call id", "lane": clamp(lane)})
@@ -334,14 +498,14 @@ func (wd *world) callee(ctx context.Context, lane int, id int) (interface{}, err
 		if c.both {
 			return resVal{id}, resErr{id}
 		}
-		return nil, resErr{id}
+		return nil, wd.mkError(c.kd, id)
 	}
-	return resVal{id}, nil
+	return mkValue(c.kd, id), nil
 }
 
 func clamp(x int) int {
-	if x > 500 || x < -500 {
-		return -500 // keeps the event int32-safe; any out-of-range index is inexplicable anyway
+	if x > 1000000 || x < -1000000 {
+		return -1000000 // keeps the event int32-safe; any out-of-range index is inexplicable anyway
 	}
 	return x
 }
@@ -360,7 +524,7 @@ func (wd *world) callerSubmit(c *call) tr.E {
 func (wd *world) submit(c *call) (rep tr.E) {
 	defer func() {
 		if p := recover(); p != nil {
-			rep = tr.E{"k": "panic", "v": 0, "e": false, "msg": fmt.Sprint(p)}
+			rep = tr.E{"k": "panic", "v": 0, "e": false, "kd": 0, "msg": fmt.Sprint(p)}
 		}
 	}()
 	var v interface{}
@@ -368,13 +532,14 @@ func (wd *world) submit(c *call) (rep tr.E) {
 	id := c.id
 	switch wd.kind {
 	case "line":
-		v, err = wd.ln.AsyncCall(c.ctx, line.NewCallCtx(wd.lineFn, id))
+		v, err = wd.ln.AsyncCall(c.ctx, line.NewCallCtx(wd.lineFn, mkValue(c.pk, id)))
 	case "mline":
-		v, err = wd.ml.AsyncCall(c.ctx, mline.NewCallCtx(c.hv, wd.mlineFn, id))
+		v, err = wd.ml.AsyncCall(c.ctx, mline.NewCallCtx(c.hv, wd.mlineFn, mkValue(c.pk, id)))
 	case "runq":
 		switch id % 3 {
-		case 0:
-			v, err = wd.rq.AsyncCall(wd.callFn, c.ctx, id)
+		case 0: // reflective call: function types with typed parameter and result
+			fn, arg := wd.typedFn(c)
+			v, err = wd.rq.AsyncCall(fn, c.ctx, arg)
 		case 1:
 			v, err = wd.rq.AsyncDelegate(c.ctx, func(ctx context.Context) (interface{}, error) {
 				return wd.callee(ctx, 0, id)
@@ -385,37 +550,103 @@ func (wd *world) submit(c *call) (rep tr.E) {
 	case "pchan":
 		v, err = wd.pc.AsyncProc(c.ctx, procT{wd, id})
 	}
-	return classify(v, err)
+	return wd.classify(c, v, err)
 }
 
-func classify(v interface{}, err error) tr.E {
+// classify renders a reply: kind and identity are read from what came back, never from what was
+// expected.  ctxOf maps a context identity to the call asking (contexts may be shared by calls).
+func (wd *world) classify(c *call, v interface{}, err error) (rep tr.E) {
+	defer scribble(v)
+	R := func(k string, id int, e bool, kd int) tr.E { return tr.E{"k": k, "v": id, "e": e, "kd": kd} }
+	other := func(msg string) tr.E { return tr.E{"k": "other", "v": 0, "e": false, "kd": 0, "msg": msg} }
+	vk, vid, vok := decodeValue(v)
 	if err == nil {
-		if r, ok := v.(resVal); ok {
-			return tr.E{"k": "res", "v": r.id, "e": false}
+		if vok {
+			return R("res", vid, false, vk)
 		}
-		return tr.E{"k": "other", "v": 0, "e": false, "msg": fmt.Sprintf("%#v", v)}
+		return other(fmt.Sprintf("%#v", v))
 	}
-	if e, ok := err.(resErr); ok {
-		// a failing callee may hand back a value too; an executor may pass it on or drop it, but it
-		// must be the value of the same call
-		if r, isv := v.(resVal); v == nil || (isv && r.id == e.id) {
-			return tr.E{"k": "res", "v": e.id, "e": true}
+	// a failing callee may hand back a value too; an executor may pass it on or drop it, but it must
+	// be the value of the same call
+	with := func(id int) bool { return v == nil || (vok && vk < 10 && vid == id) }
+	ownClosed, ownFull := error(pipe.ErrQueueClosed), error(pipe.ErrQueueFull)
+	if wd.kind == "runq" || wd.kind == "pchan" {
+		ownClosed, ownFull = async.ErrClosed, async.ErrFull
+	}
+	var we resErr
+	switch e := err.(type) {
+	case resErr:
+		if with(e.id) {
+			return R("res", e.id, true, eVal)
+		}
+	case *resErrP:
+		if e == nil && v == nil {
+			return R("res", 0, true, eNilPtr)
+		}
+		if e != nil && with(e.id) {
+			return R("res", e.id, true, ePtr)
+		}
+	case ctxErr:
+		if v == nil {
+			if e.id == c.ctx.id { // its own context (which it may share with other calls)
+				return R("ctx", c.id, false, 0)
+			}
+			return R("ctx", -e.id, false, 0) // somebody else's
 		}
 	}
 	if v != nil {
-		return tr.E{"k": "other", "v": 0, "e": false, "msg": fmt.Sprintf("value %#v with error %v", v, err)}
+		return other(fmt.Sprintf("value %#v with error %v", v, err))
 	}
-	switch e := err.(type) {
-	case ctxErr:
-		return tr.E{"k": "ctx", "v": e.id, "e": false}
+	switch {
+	case err == ownFull:
+		return R("full", 0, false, 0)
+	case err == ownClosed:
+		return R("closed", 0, false, 0)
+	case err == context.Canceled:
+		return R("sent", eCanceled, true, eCanceled)
+	case err == context.DeadlineExceeded:
+		return R("sent", eDeadline, true, eDeadline)
+	case err == q.ErrClosed:
+		return R("sent", eQClosed, true, eQClosed)
+	case err == async.ErrSync:
+		return R("sent", eSync, true, eSync)
+	case errors.Is(err, ownClosed):
+		return R("sent", eWrapClosed, true, eWrapClosed)
+	case errors.As(err, &we):
+		return R("res", we.id, true, eWrap)
 	}
-	switch err {
-	case pipe.ErrQueueFull, async.ErrFull:
-		return tr.E{"k": "full", "v": 0, "e": false}
-	case pipe.ErrQueueClosed, async.ErrClosed:
-		return tr.E{"k": "closed", "v": 0, "e": false}
+	return other(err.Error())
+}
+
+// mkError renders the error of a failing callee in kind kd.
+func (wd *world) mkError(kd, id int) error {
+	ownClosed, ownFull := error(pipe.ErrQueueClosed), error(pipe.ErrQueueFull)
+	if wd.kind == "runq" || wd.kind == "pchan" {
+		ownClosed, ownFull = async.ErrClosed, async.ErrFull
 	}
-	return tr.E{"k": "other", "v": 0, "e": false, "msg": err.Error()}
+	switch kd {
+	case ePtr:
+		return &resErrP{id}
+	case eWrap:
+		return fmt.Errorf("wrapped: %w", resErr{id})
+	case eNilPtr:
+		return (*resErrP)(nil)
+	case eClosed:
+		return ownClosed
+	case eFull:
+		return ownFull
+	case eCanceled:
+		return context.Canceled
+	case eDeadline:
+		return context.DeadlineExceeded
+	case eQClosed:
+		return q.ErrClosed
+	case eSync:
+		return async.ErrSync
+	case eWrapClosed:
+		return fmt.Errorf("lower layer: %w", ownClosed)
+	}
+	return resErr{id}
 }
 
 // oops turns a panic of an owner's call (Run, Stop) into an event of its own kind the spec rejects.
@@ -517,7 +748,17 @@ func (wd *world) doStop(by int) {
 // prepare fixes the parameters of call c and logs its invocation (and, once per hash class, what
 // MultiLine.IndexOf says about it).
 func (wd *world) prepare(c *call, hv int, fail, pre, gated bool) bool {
-	c.both = fail && (c.id+hv)%2 == 0
+	mix := c.id*31 + wd.salt*17 + (hv&0xffff)*7
+	if mix < 0 {
+		mix = -mix
+	}
+	if fail {
+		c.kd = errorKinds[mix%len(errorKinds)]
+	} else {
+		c.kd = valueKinds[mix%len(valueKinds)]
+	}
+	c.pk = []int{kInt, kStruct, kPtr, kString, kSlice, kMap, kFunc}[(mix/13)%7]
+	c.both = fail && c.kd == eVal && (c.id+hv)%2 == 0
 	cl, ok := wd.hclass[hv]
 	if !ok {
 		if len(wd.hclass) >= maxHashes {
@@ -536,7 +777,7 @@ func (wd *world) prepare(c *call, hv int, fail, pre, gated bool) bool {
 			c.ctx.yield = 5 + (c.id*13+cl*7)%40
 		}
 	}
-	wd.log.add(tr.E{"ev": "inv", "c": c.id, "h": cl, "fail": fail, "pre": pre, "hv": strconv.Itoa(hv)})
+	wd.log.add(tr.E{"ev": "inv", "c": c.id, "h": cl, "fail": fail, "pre": pre, "kd": c.kd, "hv": strconv.Itoa(hv)})
 	return true
 }
 
@@ -573,7 +814,8 @@ type act struct {
 	H     int    `json:"h"`
 	Fail  bool   `json:"fail"`
 	Pre   bool   `json:"pre"`
-	Slow  bool   `json:"slow"` // the submitter is held in its first Done() until a `done` step
+	Slow  bool   `json:"slow"`  // the submitter is held in its first Done() until a `done` step
+	Share bool   `json:"share"` // the call is made with the context of the previous call (one ctx, several calls)
 	By    int    `json:"by"`
 	Kind  string `json:"kind"`
 	Nl    int    `json:"nl"`
@@ -655,6 +897,13 @@ func (wd *world) step(a act) {
 		}
 	case "inv":
 		c := wd.calls[a.C]
+		if a.Share && !a.Pre && !a.Slow && a.C > 1 {
+			// the same context argument for several calls, as a request handler fanning out would do
+			if prev := wd.calls[a.C-1]; prev.status != "idle" && atomic.LoadInt32(&prev.ctx.slow) == 0 {
+				c.ctx = prev.ctx
+				a.Pre = c.ctx.ended()
+			}
+		}
 		if !wd.prepare(c, a.H, a.Fail, a.Pre, true) {
 			return
 		}
@@ -669,8 +918,12 @@ func (wd *world) step(a act) {
 		}
 		atomic.StoreInt32(&wd.calls[a.C].ended, 1)
 		wd.calls[a.C].gate <- "end"
-	case "cancel":
-		wd.log.add(tr.E{"ev": "cancel", "c": a.C})
+	case "cancel": // ends the context of call C - and so of every call made with that context
+		for i := 1; i <= maxCalls; i++ {
+			if m := wd.calls[i]; m.ctx == wd.calls[a.C].ctx && m.status != "idle" {
+				wd.log.add(tr.E{"ev": "cancel", "c": i})
+			}
+		}
 		wd.calls[a.C].ctx.cancel()
 	case "nest":
 		if a.By == 0 {
@@ -851,7 +1104,7 @@ func randPlan(rng *rand.Rand, nl, n int) []act {
 		case x < 35 && next <= maxCalls:
 			pre := rng.Intn(8) == 0
 			out = append(out, act{Op: "inv", C: next, H: pool[rng.Intn(len(pool))], Fail: rng.Intn(3) == 0, Pre: pre,
-				Slow: rng.Intn(8) == 0 || (pre && rng.Intn(2) == 0)})
+				Slow: rng.Intn(8) == 0 || (pre && rng.Intn(2) == 0), Share: rng.Intn(7) == 0})
 			next++
 		case x < 70:
 			out = append(out, act{Op: "end", C: rng.Intn(maxCalls+1) * rng.Intn(2)}) // a given call or any
@@ -863,6 +1116,13 @@ func randPlan(rng *rand.Rand, nl, n int) []act {
 			by := 0
 			if rng.Intn(3) == 0 {
 				by = rng.Intn(maxCalls) + 1 // the callee of that call, if it is running then
+			}
+			if rng.Intn(3) == 0 && next <= maxCalls { // Stop with one lane filled to the brim (and over)
+				h := pool[rng.Intn(len(pool))]
+				for n := 2 + rng.Intn(4); n > 0 && next <= maxCalls; n-- {
+					out = append(out, act{Op: "inv", C: next, H: h})
+					next++
+				}
 			}
 			out = append(out, act{Op: "stopi", By: by})
 			if rng.Intn(2) == 0 { // submissions right behind the shutdown, then the running calls return
@@ -1043,6 +1303,95 @@ func release(fs []func()) {
 }
 
 const lifeFamilies = 14
+const famMicro = 99 // nobody calls: Run, then one Stop that lets every parked goroutine of the executor go at once
+
+// ---------------------------------------------------------------- long runs and wide executors
+
+func (wd *world) burstHash(id int) int { return id*2654435761 - 7 } // spreads the calls of a long run over the lanes
+
+// runLong: n calls one after the other through a started, otherwise idle executor (n around the
+// widths a counter, ticket or sequence number may have been narrowed to), logged as ONE event:
+// how many came back with their own result, how often the callee was entered, overlaps, inversions,
+// calls that ran on a lane other than IndexOf(hash).  Ordinary calls follow, so that whatever the
+// run has done to the executor's state shows in the usual way.
+func runLong(w *tr.W, rng *rand.Rand, kind string, nl, qopt, n int) {
+	wd := newWorld(w, "long", kind, nl, qopt, true, rng.Intn(2) == 0)
+	wd.x = qx.New(0)
+	wd.burstN = n
+	go wd.doRun()
+	if err := wd.x.Settle(); err != nil {
+		tr.Fatal("long: %v", err)
+	}
+	var own int32
+	go func() {
+		for i := 1; i <= n; i++ {
+			id := maxCalls + i
+			var v interface{}
+			var err error
+			ctx := context.Background()
+			func() {
+				defer func() { recover() }()
+				switch kind {
+				case "line":
+					v, err = wd.ln.AsyncCall(ctx, line.NewCallCtx(wd.lineFn, id))
+				case "mline":
+					v, err = wd.ml.AsyncCall(ctx, mline.NewCallCtx(wd.burstHash(id), wd.mlineFn, id))
+				case "runq":
+					v, err = wd.rq.AsyncCall(wd.callFn, ctx, id)
+				default:
+					v, err = wd.pc.AsyncProc(ctx, procT{wd, id})
+				}
+			}()
+			if x, ok := v.(int); ok && x == id && err == nil {
+				own++
+			}
+		}
+	}()
+	if err := wd.x.Settle(); err != nil {
+		tr.Fatal("long: %v", err)
+	}
+	b := &wd.burst
+	wd.log.add(tr.E{"ev": "burst", "n": n, "own": int(atomic.LoadInt32(&own)), "entered": int(atomic.LoadInt32(&b.entered)),
+		"overlap": int(b.overlap), "disorder": int(b.disorder), "wronglane": int(b.wrongLane)})
+	pool := hashPool(rng, nl)[:3]
+	var next int32
+	var prep sync.Mutex
+	var C []func()
+	for k := 2; k > 0; k-- {
+		hv, fail := pool[rng.Intn(len(pool))], rng.Intn(3) == 0
+		C = append(C, func() {
+			prep.Lock()
+			id := int(atomic.AddInt32(&next, 1))
+			c := wd.calls[id]
+			wd.prepare(c, hv, fail, false, false)
+			prep.Unlock()
+			r := wd.callerSubmit(c)
+			wd.log.add(tr.E{"ev": "ret", "c": id, "r": r})
+		})
+	}
+	release(C)
+	wd.finale()
+}
+
+// runWide: a MultiLine with far more lanes than the specification models (counts around the default
+// 509 and around powers of two).  No call is made (a call could land on a lane that is not
+// modelled); what is observed is IndexOf for the boundary hashes - in range for that lane count -,
+// the getters, and the life cycle: Run, then one Stop that releases all those consumers at once,
+// termination and nothing left behind.
+func runWide(w *tr.W, rng *rand.Rand, nl int) {
+	wd := newWorld(w, "wide", "mline", nl, []int{1, 8, qDefault}[rng.Intn(3)], true, false)
+	wd.x = qx.New(0)
+	hs := []int{0, 1, -1, nl, -nl, nl - 1, 1 - nl, nl + 1, math.MaxInt, math.MinInt, math.MinInt + 1, int(rng.Int63()), -int(rng.Int63())}
+	rng.Shuffle(len(hs), func(i, j int) { hs[i], hs[j] = hs[j], hs[i] })
+	for i, hv := range hs[:maxHashes] {
+		wd.log.add(tr.E{"ev": "idx", "h": i + 1, "r": clamp(wd.ml.IndexOf(hv)), "hv": strconv.Itoa(hv)})
+	}
+	wd.cfg()
+	if rng.Intn(2) == 0 {
+		wd.await()
+	}
+	wd.finale()
+}
 
 // runLife: a short script of phases on a fresh executor.  The actions of one phase run concurrently
 // (released together), phases are separated by global quiescence.  C = the callers (each makes one
@@ -1066,7 +1415,7 @@ func runLife(w *tr.W, rng *rand.Rand, kind string, nl, qopt, family int) {
 	var next int32
 	var prep sync.Mutex
 	var C []func()
-	for k := 1 + rng.Intn(4); k > 0; k-- {
+	for k := rng.Intn(5); k > 0; k-- { // (no caller at all: an executor that is started and stopped unused)
 		n := 1 + rng.Intn(2)
 		C = append(C, func() {
 			for i := 0; i < n; i++ {
@@ -1125,6 +1474,9 @@ func runLife(w *tr.W, rng *rand.Rand, kind string, nl, qopt, family int) {
 		phases = [][]func(){cat(C, S), R}
 	case 12:
 		phases = [][]func(){RS, C}
+	case famMicro:
+		C = nil
+		phases = [][]func(){R, S}
 	default:
 		phases = [][]func(){R, cat(C, S)}
 	}
@@ -1166,8 +1518,12 @@ func main() {
 	nrand := flag.Int("rand", 100, "random schedules")
 	nstress := flag.Int("nstress", 20, "stress runs")
 	nlife := flag.Int("nlife", 56, "life-cycle rounds")
+	nmicro := flag.Int("nmicro", 120, "life-cycle rounds without callers (one Stop releasing every parked goroutine)")
+	nlong := flag.Int("nlong", 1, "executors (of 4 kinds) that get the 65537-call run; all get the 257-call run")
+	nwide := flag.Int("nwide", 4, "MultiLines with hundreds of lanes")
 	flag.Parse()
 	rng := rand.New(rand.NewSource(*seed))
+	worldSeq = int(*seed % 1000)
 	ulog.SetLogLevelStr("error")
 
 	kinds := []string{"line", "mline", "runq", "pchan", "mline", "pchan"}
@@ -1204,6 +1560,21 @@ func main() {
 			fam = []int{1, 11, 9, 12, 1, 10, 4, 11, 6, 1, 9, 5, 7, 12}[(i/4)%lifeFamilies]
 		}
 		runLife(w, rng, kind, lanes(kind), qopt(kind), fam)
+	}
+	for i := 0; i < *nmicro; i++ {
+		kind := kinds4[i%4]
+		runLife(w, rng, kind, lanes(kind), qopt(kind), famMicro)
+	}
+	for i, kind := range kinds4 {
+		q := []int{1, 2, 8}[rng.Intn(3)]
+		runLong(w, rng, kind, lanes(kind), q, 257)
+		if (i+int(*seed))%4 < *nlong {
+			runLong(w, rng, kind, lanes(kind), q, 65537)
+		}
+	}
+	wides := []int{8, 63, 64, 65, 508, 509, 510, 1023, 1024, 1025}
+	for i := 0; i < *nwide; i++ {
+		runWide(w, rng, wides[(i+int(*seed))%len(wides)])
 	}
 	if *plans != "" {
 		files, _ := filepath.Glob(filepath.Join(*plans, "*.ndjson"))
